@@ -1,22 +1,16 @@
 #!/bin/bash
-# Build the framework from files on disk only (offline): Coq development (full .vo build), Go harness.
+# Build the framework from files on disk only (offline): Go harness against /repo, regenerated Gen/*.v, full .vo build.
 set -u
 cd "$(dirname "$0")"
 export GOFLAGS=-mod=mod GOPROXY=off GOSUMDB=off GOTOOLCHAIN=local
 mkdir -p .build out/replays evidence
 fail=0
-# no axioms / admits / switched-off checks anywhere in the development (comments are stripped by ./check per property as well)
+# no axioms / admits / switched-off checks anywhere in the development (./check repeats this per property with comments stripped)
 if grep -rnE '\b(Admitted|admit|Axiom|Parameter|Conjecture)\b|Unset Guard|bypass_check|Admit Obligations|type-in-type|impredicative-set' coq --include='*.v' | grep -v '^\S*:[0-9]*:\s*(\*' ; then
   echo "setup: forbidden declaration found" >&2; fail=1
 fi
-( cd harness && cp /repo/go.sum . && go build -tags verif -o ../.build/harness . ) || { echo "setup: harness build failed" >&2; fail=1; }
-# regenerate Gen/*.v from the tree before the Coq build
-for g in gen-consts:Gen/Consts.v gen-schemas:Gen/Schemas.v; do
-  sub=${g%%:*}; tgt=${g##*:}
-  if [ -e coq/Gen/.$sub ] && [ -x .build/harness ]; then
-    .build/harness $sub > .build/$sub.tmp 2>/dev/null && { cmp -s .build/$sub.tmp coq/$tgt || cp .build/$sub.tmp coq/$tgt; }
-  fi
-done
-( cd coq && coq_makefile -f _CoqProject -o Makefile >/dev/null && timeout 3000 make -j16 2>&1 | grep -v '^Closed under\|^COQC\|^COQDEP' ) 
+# harness build (generated bindings + registry), regeneration of coq/Gen/*.v, coq_makefile
+./check --build || { echo "setup: harness build / regeneration failed" >&2; fail=1; }
+( cd coq && timeout 3000 make -j16 2>&1 | grep -v '^Closed under\|^COQC\|^COQDEP\|^make' )
 ( cd coq && make -q 2>/dev/null || timeout 3000 make -j16 >/dev/null 2>&1 ) || { echo "setup: coq build failed" >&2; fail=1; }
 exit $fail
